@@ -1,6 +1,9 @@
 package main
 
 import (
+	"os"
+	"sync/atomic"
+
 	"bytes"
 	"encoding/json"
 	"errors"
@@ -70,6 +73,9 @@ func runCut(rec *CutRec) {
 		}
 	}
 	for _, k := range ks {
+		if atomic.LoadInt32(&hungReads) > 0 {
+			break
+		}
 		v, alloc, ms := readBytes(rec.Bytes[:k])
 		c := Cut{K: k, Kind: v.Kind, Counts: []int{}, Alloc: alloc, Ms: ms, Msg: v.Msg, Val: noneR()}
 		if v.Kind == "value" {
@@ -236,6 +242,9 @@ func runSched(rec *SchedRec) {
 	bad := 0
 	nsplit := 0
 	for k := 1; k < len(data); k += step {
+		if atomic.LoadInt32(&hungReads) > 0 {
+			break
+		}
 		v, _, _ := readFrom(&splitReader{data: data, k: k})
 		nsplit++
 		if !sameResult(v, rec.Base) {
@@ -390,6 +399,9 @@ func runRFault(rec *RFaultRec) {
 			continue
 		}
 		for _, frag := range []int{0, 1} {
+			if atomic.LoadInt32(&hungReads) > 0 {
+				break
+			}
 			v, _, _ := readFrom(&faultReader{data: rec.Bytes, k: k, frag: frag})
 			rec.Faults = append(rec.Faults, RFault{K: k, Frag: frag, Kind: v.Kind, Msg: v.Msg})
 		}
@@ -487,6 +499,10 @@ func cmdSmfGen(args []string) {
 			w.Put(rec)
 		default:
 			hx.Die("unknown mode", *mode)
+		}
+		if atomic.LoadInt32(&hungReads) > 0 { // a read never returned: stop here, the record just written carries the timeout
+			w.Close()
+			os.Exit(0)
 		}
 	}
 	if *mode == "wrx" {
